@@ -268,6 +268,7 @@ def execute(plan):
     old_handler = signal.signal(signal.SIGALRM, _alarm)
     try:
         conn_s = mg.fresh_conn(model)
+        mg.enable_query(conn_s)     # stub query engine (see modelgen)
         opgen.register_echo(conn_s, model)
         server = wbemserver.SimWBEMServer(conn_s)
         peer = Peer(server, plan)
